@@ -268,6 +268,7 @@ func (ex *Exec) loadCell(c *Cell) Value {
 }
 
 func (ex *Exec) storeCell(c *Cell, v Value) {
+	ex.storeCount++
 	if c.lazy != nil {
 		a, ok := v.(ArrayV)
 		if !ok {
